@@ -79,7 +79,7 @@ class LayerNormFusion(pattern.RewriteRuleClassBase):
 
         return normalized_scaled
 
-    def check(self, context, x, epsilon, **_) -> pattern.MatchResult:  # type: ignore[name-defined]
+    def check(self, context, x, scale, epsilon, **_) -> pattern.MatchResult:  # type: ignore[name-defined]
         """Check if the pattern matches conditions for use of LayerNormalization op."""
         check_result = pattern.MatchResult()
 
@@ -92,6 +92,11 @@ class LayerNormFusion(pattern.RewriteRuleClassBase):
         epsilon_value = _ir_utils.get_singleton_value(epsilon)
         if epsilon_value is None:
             return check_result.fail("Epsilon is not a constant scalar.", epsilon)
+        # The fused op returns a tensor of the shape of x: neither operand may add dimensions by broadcasting.
+        if not _ir_utils.broadcast_keeps_rank(epsilon, x):
+            return check_result.fail("Epsilon has a higher rank than the input.", epsilon)
+        if not _ir_utils.broadcast_keeps_rank(scale, x):
+            return check_result.fail("Scale is not known to have at most the rank of the input.", scale)
         # Epsilon is guaranteed to be same type as x (float or double, in this pattern)
         self._epsilon = float(epsilon_value)
 
@@ -112,6 +117,13 @@ class LayerNormBiasFusion(pattern.RewriteRuleClassBase):
 
     def pattern(self, op, x, scale, bias):
         return op.LayerNormalization(x, scale, _outputs=["normalized"]) + bias
+
+    def check(self, context, x, bias, **_) -> pattern.MatchResult:  # type: ignore[name-defined]
+        check_result = pattern.MatchResult()
+        # The Add broadcasts; the bias operand of LayerNormalization must not add dimensions to x.
+        if not _ir_utils.broadcast_keeps_rank(bias, x):
+            return check_result.fail("Bias is not known to have at most the rank of the input.", bias)
+        return check_result
 
     def rewrite(self, op, x, scale, bias, normalized):
         layernorm_node = normalized.producer()
